@@ -134,14 +134,16 @@ Fixpoint find_origin (stack : list anc) (n : ident) : res (nat * bool) :=
       end
   end.
 
-(* NamespaceFunction.__init__: frees then nonlocals, in the order symtable lists them; a method that
-   mentions __class__ stops the scan (PEP 3135) *)
+(* NamespaceFunction.__init__: frees then nonlocals, in the order symtable lists them; the implicit
+   __class__ of a method (PEP 3135) is skipped and only sets the zero-argument-super flag *)
 Fixpoint scan_function (is_method : bool) (stack : list anc) (names : list ident)
   : res (list (ident * nat) * list mark * bool) :=
   match names with
   | [] => ret ([], [], false)
   | n :: r =>
-      if is_method && String.eqb n "__class__" then ret ([], [], true)
+      if is_method && String.eqb n "__class__" then
+        let! rest := scan_function is_method stack r in
+        match rest with (m, marks, _) => ret (m, marks, true) end
       else
         let! o := find_origin stack n in
         let! rest := scan_function is_method stack r in
